@@ -3,6 +3,7 @@ import LP.Props.C20Heap
 import LP.Props.C20HeapOrder
 import LP.Props.C20HSet
 import LP.Props.C20HSetProbe
+import LP.Props.C20HSetRemove
 #print axioms LP.SpecSet.C20_spec_insert
 #print axioms LP.SpecSet.C20_spec_remove
 #print axioms LP.SpecSet.C20_spec_size
@@ -41,3 +42,8 @@ import LP.Props.C20HSetProbe
 #print axioms LP.HSet.insert_good
 #print axioms LP.HSet.good_empty
 #print axioms LP.HSet.C20_hset_insert_only_partial
+#print axioms LP.HSet.sinv_final
+#print axioms LP.HSet.sinv_stay
+#print axioms LP.HSet.sinv_move
+#print axioms LP.HSet.shiftBack_pc
+#print axioms LP.HSet.remove_good
